@@ -305,81 +305,7 @@ Section Ring.
     split; [intros; apply sdiv_spec; auto|apply sdiv_zero; exact Ia].
   Qed.
 
-  (* ---- transpose, identity ------------------------------------------------------------ *)
-  Lemma push_loop {S : Type} n (f : nat -> res S) (x : nat -> S) acc :
-    (forall i, i < n -> f i = Ok (x i)) ->
-    forM n (fun i acc => let* v := f i in Ok (acc ++ [v])) acc = Ok (acc ++ map x (seq 0 n)).
-  Proof.
-    intro H.
-    destruct (forM_inv (fun i s => s = acc ++ map x (seq 0 i))
-               (fun i acc => let* v := f i in Ok (acc ++ [v])) n acc) as [s [E P]].
-    - cbn. rewrite app_nil_r. reflexivity.
-    - intros i s Hi ->. rewrite (H i Hi). cbn [bind]. eexists. split; [reflexivity|].
-      rewrite seq_S, map_app, app_assoc. reflexivity.
-    - rewrite E, P. reflexivity.
-  Qed.
 End Ring.
-
-(* transpose does not need arithmetic *)
-Section Transpose.
-  Context {T : Type} (d : T).
-  Implicit Types a : arr T.
-
-  Definition ttab (h w : nat) (f : nat -> nat -> T) : list (list T) :=
-    map (fun r => map (fun c => f r c) (seq 0 w)) (seq 0 h).
-
-  Lemma ttab_rect h w f : Forall (fun rw => length rw = w) (ttab h w f).
-  Proof.
-    unfold ttab. apply Forall_forall. intros rw Hrw. apply in_map_iff in Hrw.
-    destruct Hrw as [r [<- _]]. rewrite map_length, seq_length. reflexivity.
-  Qed.
-
-  Lemma ttab_length h w f : length (ttab h w f) = h.
-  Proof. unfold ttab. rewrite map_length, seq_length. reflexivity. Qed.
-
-  Lemma ttab_nth h w f r c : r < h -> c < w -> nth c (nth r (ttab h w f) []) d = f r c.
-  Proof.
-    intros Hr Hc. unfold ttab.
-    rewrite (nth_indep _ [] (map (fun c => f 0 c) (seq 0 w))) by (rewrite map_length, seq_length; exact Hr).
-    rewrite (map_nth (fun r => map (fun c => f r c) (seq 0 w)) (seq 0 h) 0 r).
-    rewrite seq_nth by exact Hr. cbn [plus].
-    rewrite (nth_indep _ d (f r 0)) by (rewrite map_length, seq_length; exact Hc).
-    rewrite (map_nth (fun c => f r c) (seq 0 w) 0 c).
-    rewrite seq_nth by exact Hc. reflexivity.
-  Qed.
-
-  Lemma transpose_inner_spec a : Inv a ->
-    transpose_inner a = Ok (concat (ttab (width a) (height a) (fun c r => get d a r c))).
-  Proof.
-    intro I. unfold transpose_inner.
-    destruct (forM_inv (fun col s => s = concat (ttab col (height a) (fun c r => get d a r c)))
-      (fun col acc => forM (height a) (fun rw acc => let* x := get2 a rw col in Ok (acc ++ [x])) acc)
-      (width a) []) as [s [E P]].
-    - reflexivity.
-    - intros col s Hcol ->.
-      pose proof (fun S f x acc H => @push_loop S (height a) f x acc H) as PL.
-      rewrite (PL T (fun rw => get2 a rw col) (fun rw => get d a rw col)).
-      + eexists. split; [reflexivity|].
-        unfold ttab. rewrite seq_S, map_app, concat_app. cbn [map concat plus]. rewrite app_nil_r. reflexivity.
-      + intros i Hi. apply get2_ok; auto.
-    - rewrite E, P. reflexivity.
-  Qed.
-
-  Lemma transpose_spec a : Inv a ->
-    exists t, transpose a = Ok t /\ Inv t /\ height t = width a /\ width t = height a /\
-      forall i j, i < width a -> j < height a -> get d t i j = get d a j i.
-  Proof.
-    intro I. unfold transpose. rewrite (transpose_inner_spec a I). cbn [bind].
-    eexists. split; [reflexivity|].
-    pose proof (ttab_rect (width a) (height a) (fun c r => get d a r c)) as R.
-    split; [|split; [reflexivity|split; [reflexivity|]]].
-    - unfold Inv. cbn [inner height width].
-      rewrite (concat_rect_length _ (height a) R), ttab_length. reflexivity.
-    - intros i j Hi Hj. unfold get at 1. cbn [inner width].
-      rewrite (concat_rect_nth _ (height a) d R i j Hj).
-      exact (ttab_nth (width a) (height a) (fun c r => get d a r c) i j Hi Hj).
-  Qed.
-End Transpose.
 
 Section Laws.
   Context {T : Type} {NT : Num T} {NR : NumRing T}.
